@@ -124,6 +124,9 @@ CFG_OPS = {
     'contains0': lambda g, o: g.contains(W0), 'contains1': lambda g, o: g.contains(W1), 'contains_eps': lambda g, o: g.contains([]),
     'is_empty': lambda g, o: g.is_empty(), 'is_finite': lambda g, o: g.is_finite(), 'generate_epsilon': lambda g, o: g.generate_epsilon(),
     'generating': lambda g, o: tuple(sorted(map(repr, g.get_generating_symbols()))), 'nullable': lambda g, o: tuple(sorted(map(repr, g.get_nullable_symbols()))),
+    'generating+mutate': lambda g, o: (lambda s_: (tuple(sorted(map(repr, s_))), s_.clear())[0])(g.get_generating_symbols()),
+    'nullable+mutate': lambda g, o: (lambda s_: (tuple(sorted(map(repr, s_))), s_.clear() if hasattr(s_, 'clear') else None)[0])(g.get_nullable_symbols()),
+    'reachable+mutate': lambda g, o: (lambda s_: (tuple(sorted(map(repr, s_))), s_.clear() if hasattr(s_, 'clear') else None)[0])(g.get_reachable_symbols()),
     'reachable': lambda g, o: tuple(sorted(map(repr, g.get_reachable_symbols()))),
     'normal_form': lambda g, o: s_cfg(g.to_normal_form()), 'remove_epsilon': lambda g, o: s_cfg(g.remove_epsilon()),
     'remove_useless': lambda g, o: s_cfg(g.remove_useless_symbols()), 'eliminate_unit': lambda g, o: s_cfg(g.eliminate_unit_productions()),
